@@ -70,7 +70,7 @@ Definition viol_case (c : ccase) : list N :=
                        else match pctx m with CReply _ _ => [1] | CQueryReply _ => [2] | CEvent => [3] end) (c_obs c) ++
     flat_map (fun t => match t with
                        | TRequest r DNoAccess => []
-                       | TRequest r _ => if Nat.eqb (responses_on (rreply r) (c_obs c)) 1 then [] else [4]
+                       | TRequest r _ => if is_nil (rreply r) then [] else if Nat.eqb (responses_on (rreply r) (c_obs c)) 1 then [] else [4]
                        | TQuery _ q _ => if Nat.eqb (responses_on q (c_obs c)) 1 then [] else [5]
                        | _ => []
                        end) (c_tops c)).
